@@ -51,6 +51,36 @@ UNITS = [
     unit('dtor', 'sp_dtor', r'^cocls::suspend_point<void>::~suspend_point\(\)$', extra_types=SPT, extra_names={'sp_suspend_now': SN_RX}, extra_boundary=[SN_RX], spec=SPQ['spec']),
     unit('ia_suspend', 'ia_suspend', r'^cocls::coro_queue::initial_awaiter::await_suspend\(std::__n4861::coroutine_handle<void>\)$', **WITH_FLUSH),
 ]
+# ---- coro_queue::create_suspend_point(Fn&&) for a void- and an int-returning functor (csp_spec.h; refined queue model lib/model_coro_back.c)
+import os as _os5b
+CSP_LIBS = ['rt_core.c', 'rt_atomic_seq.c', 'model_coro_back.c']
+MERGE_RX5 = r'^cocls::suspend_point<void>::operator<<\(cocls::suspend_point<void>&&\)$'
+MOVE_RX5 = r'^cocls::suspend_point<void>::suspend_point\(cocls::suspend_point<void>&&\)$'
+DTOR_RX5 = r'^cocls::suspend_point<void>::~suspend_point\(\)$'
+CSP_STRICT = ['C05_CREATE_SP_ORDER_STRICT 1'] if _os5b.environ.get('C05_CREATE_SP_ORDER_STRICT') else []   # opt-in order clause (observation C05-OBS-create-sp-reverses)
+def csp_units(tag, fnt, rett, extra_def):
+    rx = r'^auto cocls::coro_queue::create_suspend_point<%s>\(%s&&\)$' % (fnt, fnt)
+    iq = r'^auto cocls::coro_queue::install_queue_and_call<cocls::coro_queue::create_suspend_point<%s>' % fnt
+    lam = r'^cocls::coro_queue::create_suspend_point<%s>\(%s&&\)::\{lambda\(\)#1\}::operator\(\)\(\) const$' % (fnt, fnt)
+    types = dict(TYPES, SP='cocls::suspend_point<void>', EXT='cocls::suspend_point<void>::ExtData', SPI='cocls::suspend_point<int>', FNV='c05_FnV', FNI='c05_FnI')
+    base = dict(driver='c05_queue.cpp', types=types, globals=GLOBALS, lib=CSP_LIBS, ptypes={'CSP_LAM': iq + '#1'},
+                spec=['C06/sp_spec.h', 'C05/q_spec.h', 'C05/csp_spec.h'], cbmc_flags=['--sat-solver', 'cadical'])
+    common_def = ['CV_QUEUE_INSTANCE_PTR QINST', 'CV_COUNT_X 1', 'CSP_RET ' + rett, 'CSP_FN ' + ('FNV' if fnt == 'c05_FnV' else 'FNI')] + extra_def + CSP_STRICT
+    main = dict(base, name='create_sp_' + tag, roots=[rx], names={'csp_' + tag: rx}, names_opt={'sp_merge': MERGE_RX5, 'sp_move_ctor': MOVE_RX5, 'sp_dtor': DTOR_RX5, 'iq_csp_stub': iq, 'dq_index': r'^std::deque<std::__n4861::coroutine_handle<void>, std::allocator<std::__n4861::coroutine_handle<void> > >::operator\[\]\(unsigned long\)$'},
+                replay=dict(src='c05_create_sp_order.cpp', mode=('discard' if CSP_STRICT else 'once'), flags=['-O1', '-g']),
+                boundary=BOUNDARY + [MERGE_RX5, MOVE_RX5, DTOR_RX5, iq], harness='h_create_sp_' + tag, enforce='csp_' + tag, loop_contracts=True,
+                defines=common_def, timeout=600, under_contract=['cocls::coro_queue::create_suspend_point<%s>(%s&&)' % (fnt, fnt)],
+                note='coroutine mode: functor once, its coroutines collected exactly once (multiset), none run, older entries untouched; normal mode: one forward through install_queue_and_call')
+    bounded = dict(main, name='create_sp_%s_bounded' % tag, loop_contracts=False, defines=common_def + ['CV_BOUNDED_FALLBACK 1', 'CV_ENV_MAX_READY 3'], unwind=6, kind='bounded',
+                   bounded='the functor makes <= 3 coroutines ready, <= 2 older entries queued; loop unwound instead of the loop contract', timeout=900)
+    normal = dict(base, name='create_sp_%s_normal' % tag, roots=[iq], names={'iq_csp': iq, 'qi_flush': FLUSH_RX}, names_opt={'csp_nested_stub': rx, 'sp_dtor': DTOR_RX5},
+                  boundary=BOUNDARY + [rx, FLUSH_RX, DTOR_RX5], lib=LIBS, harness='h_create_sp_normal', enforce='iq_csp', replace=['qi_flush'], loop_contracts=False,
+                  defines=common_def, timeout=300,
+                  under_contract=['cocls::coro_queue::install_queue_and_call<create_suspend_point<%s>::{lambda()#1}>' % fnt, 'cocls::coro_queue::create_suspend_point<%s>(%s&&)::{lambda()#1}::operator()() const' % (fnt, fnt)],
+                  note='no queue installed: the thread queue is installed, create_suspend_point re-entered exactly once under it, drained, uninstalled')
+    return [main, bounded, normal]
+UNITS += csp_units('void', 'c05_FnV', 'SP', []) + csp_units('int', 'c05_FnI', 'SPI', ['CSP_INT 1'])
+
 # "does not start executing until the running coroutine suspends or finishes" also binds the end of an async coroutine: its final
 # awaiter hands control to a released waiter of ITS future (symmetric transfer) or back to the resumer - never to the ready queue.
 # That clause is in the contract of async_promise::final_awaiter::await_suspend (C04), re-run here.
@@ -76,9 +106,9 @@ UNITS.append(dict(name='start_nested', driver='c04_async.cpp', roots=[START_LAM_
 
 META = dict(
     level='proof',
-    level_text='Every scheduling primitive of coro_queue.h (resume, install_queue_and_resume, flush_queue, push, swap_coroutine, pause, resume_handle_next, can_block, initial_awaiter) and the members of suspend_point that hand coroutines to the scheduler (suspend_now, clear, destructor, await_suspend in coroutine mode) are verified against contracts over an abstract FIFO ready queue, for every queue length and content, every suspend-point size < 2^28 in both representations, with the environment (the resumed coroutine) free to append to and dequeue from the queue at every resume. Run-to-suspension = "in coroutine mode nothing is resumed and the handle lands at the tail"; FIFO/each-once = "the i-th handle taken from the queue is the i-th handle resumed, counts equal"; full drain = "queue empty and mode restored on return to normal code"; pause = one in at the tail, one out from the head.',
-    level_note='Trusted: FIFO model of std::deque<coroutine_handle<>> (assumed contract on the dependency), the resume primitive with its environment step, clang front end, ir2c. thread_local queue = one global (per-thread by definition). Not covered: create_suspend_point, the normal-mode branch of suspend_point::await_suspend (re-enters itself under a fresh queue), whole-program composition over arbitrary coroutine programs (the per-function contracts are the inductive steps; no history lemma is machine-checked yet).',
+    level_text='Every scheduling primitive of coro_queue.h (resume, install_queue_and_resume, flush_queue, push, swap_coroutine, pause, resume_handle_next, can_block, initial_awaiter) and the members of suspend_point that hand coroutines to the scheduler (suspend_now, clear, destructor, await_suspend in coroutine mode) are verified against contracts over an abstract FIFO ready queue, for every queue length and content, every suspend-point size < 2^28 in both representations, with the environment (the resumed coroutine) free to append to and dequeue from the queue at every resume. Run-to-suspension = "in coroutine mode nothing is resumed and the handle lands at the tail"; FIFO/each-once = "the i-th handle taken from the queue is the i-th handle resumed, counts equal"; full drain = "queue empty and mode restored on return to normal code"; pause = one in at the tail, one out from the head. coro_queue::create_suspend_point(Fn&&) (void- and int-returning functor; units create_sp_void / create_sp_int with a loop contract on the collecting loop + bounded siblings, create_sp_*_normal for the inactive-queue branch): the functor runs exactly once inside an activation; every coroutine it made ready is in the returned suspend point exactly as often as it was queued (multiset equality over an arbitrary handle value gh_X, sizes equal); nothing is resumed, dequeued from the front or discarded inside; the entries queued before the call keep their positions and the queue length is restored; int functor: the attached value is the functor result; with no queue installed the call is forwarded exactly once through install_queue_and_call, which installs the thread queue, re-enters create_suspend_point exactly once under it, drains and uninstalls.',
+    level_note='Trusted: FIFO model of std::deque<coroutine_handle<>> (assumed contract on the dependency), the resume primitive with its environment step, clang front end, ir2c. thread_local queue = one global (per-thread by definition). create_suspend_point: suspend_point<void>::operator<< / move constructor / destructor are abstract callees there (ghost sequence attached to the object identity; their own contracts are C06 units merge / move_ctor / dtor), the functor is the environment (appends any number < 2^20 of handles, starts none, may throw at its end); the ORDER clause (C05_CREATE_SP_ORDER_STRICT, marker C05-OBS-create-sp-reverses) is opt-in and FAILS on the current code: the collecting loop pops from the back, the returned point carries the coroutines in reverse of the order they were made ready (native: replay/c05_create_sp_order.cpp - discard: CBA, co_await: A,C,B) - an observation left to the coordinator, not counted as a finding; a candidate repair (forward scan with operator[], then pop) is specs/C05/fix_create_sp_order.diff (not applied): with it the opt-in clause is discharged by create_sp_void / create_sp_int (alternative loop contracts CSP_SCAN_LOOP0/1, selected when the unit contains std::deque::operator[]) and by the bounded siblings, and the native replay prints ABC (co_await still starts with the LAST stored handle = C, then A, B: the documented symmetric transfer of suspend_point::await_suspend to the last handle). The functor may throw after having made coroutines ready (THROW clause: they stay queued, the exception reaches the caller). Not covered: the normal-mode branch of suspend_point::await_suspend beyond the bounded unit (re-enters itself under a fresh queue), whole-program composition over arbitrary coroutine programs (the per-function contracts are the inductive steps; no history lemma is machine-checked yet).',
     technique='CBMC code contracts + loop contracts enforced via goto-instrument --dfcc on the C translation of clang IR of coro_queue.h / suspend_point.h; std::deque and coroutine resumption as assumed-contract primitives with a ghost-index FIFO model',
-    trusted_base=['assumed contract: std::deque<coroutine_handle<>> is an unbounded FIFO (lib/model_coro.c)', 'primitive: coroutine_handle<>::resume() logs the handle and lets the environment append to / dequeue from the ready queue (lib/model_coro.c)'],
+    trusted_base=['assumed contract: std::deque<coroutine_handle<>> is an unbounded FIFO (lib/model_coro.c)', 'primitive: coroutine_handle<>::resume() logs the handle and lets the environment append to / dequeue from the ready queue (lib/model_coro.c)', 'create_suspend_point units: refinement lib/model_coro_back.c of the FIFO model (back()/pop_back() consistent with a multiset count of an arbitrary handle value over the segment queued by the functor); environment functor cv_env_makes_ready (appends only); abstract suspend_point operator<< / move constructor / destructor (specs/C05/csp_spec.h)'],
     assumptions=['ghost counters are mathematical (never wrap)', 'handles stored in a suspend point are non-null (precondition, checked position-wise)'],
     explanation='see level_text')
